@@ -83,6 +83,7 @@ type agg struct {
 	counters  map[string]int64
 	maxes     map[string]int64
 	samples   []interface{}
+	samplePer map[string]int
 	notes     map[string]string
 	viols     []viol
 	violCount map[string]int
@@ -108,7 +109,18 @@ func (a *agg) addSnap(s *snap) {
 		}
 	}
 	for _, x := range s.Samples {
-		if len(a.samples) < 8 {
+		// keep the evidence samples diverse: at most 2 per stream, 12 in all
+		key := ""
+		if m, ok := x.(map[string]interface{}); ok {
+			if st, ok := m["stream"].(string); ok {
+				key = st
+			}
+		}
+		if a.samplePer == nil {
+			a.samplePer = map[string]int{}
+		}
+		if len(a.samples) < 12 && (a.samplePer[key] < 2 || key == "" && a.samplePer[key] < 6) {
+			a.samplePer[key]++
 			a.samples = append(a.samples, x)
 		}
 	}
